@@ -238,7 +238,7 @@ def wild_op(rng, t, ids, names):
         return ["kickoff", o]
     if c in (11, 12):
         k = rng.randint(0, 3)
-        objs = [rng.choice(ids) for _ in range(k)]
+        objs = rng.sample(ids, min(k, len(ids)))      # distinct: the driver programs one answer per device
         return ["collect", [[x, rng.randint(-2, 6), bad_assets(rng, t) if rng.random() < 0.6 else []] for x in objs],
                 rng.choice([None, nm]), rng.random() < 0.1]
     if c == 13:
